@@ -15,10 +15,10 @@ namespace Occa.Cpp
 def ObjTable (tbl : List Macro) : Prop := ∀ m ∈ tbl, m.isFn = false ∧ m.special = false
 
 /-- the tokens an object-like macro expands to -/
-def objBody (vc : Bool) (m : Macro) : List Tok := subst vc m []
+def objBody (vc : XCfg) (m : Macro) : List Tok := subst vc.vaCommas m []
 
 /-- no token spelled `defined` (that identifier is a built-in function-like macro) -/
-def NoDefined (vc : Bool) (tbl : List Macro) : Prop :=
+def NoDefined (vc : XCfg) (tbl : List Macro) : Prop :=
   ∀ m ∈ tbl, ∀ t ∈ objBody vc m, t.text ≠ "defined"
 
 /-- the macro a token would be replaced by: an identifier naming a macro that is not disabled -/
@@ -30,7 +30,7 @@ def expandable (tbl : List Macro) (D : List String) (t : Tok) : Option Macro :=
   else none
 
 /-- closed form of processToken on an object-like table -/
-def ptObj (vc : Bool) (t : ITok) (s : PP) : PP :=
+def ptObj (vc : XCfg) (t : ITok) (s : PP) : PP :=
   match expandable s.table s.disabled t.tok with
   | none => (s.pushOut t.tok).clear t.ends
   | some m =>
@@ -50,7 +50,7 @@ theorem lookup_of_not_defined (tbl : List Macro) (n : String) (h : n ≠ "define
   | some m => rfl
   | none => simp [h]
 
-theorem pt_obj (vc : Bool) (n : Nat) (t : ITok) (s : PP) (hobj : ObjTable s.table) (hex : s.expanding = true)
+theorem pt_obj (vc : XCfg) (n : Nat) (t : ITok) (s : PP) (hobj : ObjTable s.table) (hex : s.expanding = true)
     (hd : t.tok.text ≠ "defined") :
     processToken vc (n + 1 + 1 + 1 + 1 + 1) t s = .ok (ptObj vc t s) := by
   unfold processToken ptObj expandable
@@ -68,7 +68,7 @@ theorem pt_obj (vc : Bool) (n : Nat) (t : ITok) (s : PP) (hobj : ObjTable s.tabl
       · simp only [List.contains_eq_mem, hdis, decide_false, if_false, hm.1, Bool.not_false, if_true, Bool.false_eq_true]
         unfold expandMacro macroExpand loadArgs
         simp only [hm.1, hm.2, Bool.false_eq_true, if_false, Bool.not_false, if_true, objBody]
-        cases hl : (subst vc m []).getLast? with
+        cases hl : (subst vc.vaCommas m []).getLast? with
         | none => simp
         | some l => simp [hdis, clear_nil, hex]
   · simp [hid]
@@ -78,7 +78,7 @@ theorem pt_obj (vc : Bool) (n : Nat) (t : ITok) (s : PP) (hobj : ObjTable s.tabl
 
 /-- weight of a token relative to the list `E` of macros that are still enabled: the number of
     processToken steps its complete expansion takes.  `k` is fuel, `E.length` suffices. -/
-def wtF (vc : Bool) : Nat → List Macro → Tok → Nat
+def wtF (vc : XCfg) : Nat → List Macro → Tok → Nat
   | 0, _, _ => 1
   | k + 1, E, t =>
     if t.isIdent then
@@ -87,14 +87,14 @@ def wtF (vc : Bool) : Nat → List Macro → Tok → Nat
       | none => 1
     else 1
 
-def wt (vc : Bool) (E : List Macro) (t : Tok) : Nat := wtF vc E.length E t
+def wt (vc : XCfg) (E : List Macro) (t : Tok) : Nat := wtF vc E.length E t
 
 theorem filter_ne_length_lt (E : List Macro) (m : Macro) (hm : m ∈ E) :
     (E.filter (fun x => x.name != m.name)).length < E.length := by
   apply List.length_filter_lt_length_iff_exists.mpr
   exact ⟨m, hm, by simp⟩
 
-theorem wtF_stable (vc : Bool) : ∀ (k : Nat) (E : List Macro) (t : Tok), E.length ≤ k →
+theorem wtF_stable (vc : XCfg) : ∀ (k : Nat) (E : List Macro) (t : Tok), E.length ≤ k →
     wtF vc k E t = wtF vc E.length E t := by
   intro k
   induction k using Nat.strongRecOn with
@@ -132,7 +132,7 @@ theorem wtF_stable (vc : Bool) : ∀ (k : Nat) (E : List Macro) (t : Tok), E.len
             rw [e1 b, e2 b]
         · simp [hid]
 
-theorem wt_expand (vc : Bool) (E : List Macro) (t : Tok) (m : Macro) (hid : t.isIdent = true)
+theorem wt_expand (vc : XCfg) (E : List Macro) (t : Tok) (m : Macro) (hid : t.isIdent = true)
     (hf : E.find? (fun m => m.name == t.text) = some m) :
     wt vc E t = 1 + ((objBody vc m).map (wt vc (E.filter (fun x => x.name != m.name)))).sum := by
   have hm := List.mem_of_find?_eq_some hf
@@ -149,7 +149,7 @@ theorem wt_expand (vc : Bool) (E : List Macro) (t : Tok) (m : Macro) (hid : t.is
     intro b _
     exact wtF_stable vc j (E.filter (fun x => x.name != m.name)) b (by omega)
 
-theorem wt_plain (vc : Bool) (E : List Macro) (t : Tok)
+theorem wt_plain (vc : XCfg) (E : List Macro) (t : Tok)
     (h : t.isIdent = false ∨ E.find? (fun m => m.name == t.text) = none) : wt vc E t = 1 := by
   unfold wt
   cases E.length with
@@ -160,7 +160,7 @@ theorem wt_plain (vc : Bool) (E : List Macro) (t : Tok)
     · simp [h]
     · by_cases hid : t.isIdent = true <;> simp [hid, h]
 
-theorem wt_pos (vc : Bool) (E : List Macro) (t : Tok) : 1 ≤ wt vc E t := by
+theorem wt_pos (vc : XCfg) (E : List Macro) (t : Tok) : 1 ≤ wt vc E t := by
   by_cases hid : t.isIdent = true
   · cases hf : E.find? (fun m => m.name == t.text) with
     | none => rw [wt_plain vc E t (Or.inr hf)]; exact Nat.le_refl 1
@@ -175,7 +175,7 @@ def enabledOf (tbl : List Macro) (D : List String) : List Macro := tbl.filter (f
 
 /-- the weights of the pending tokens, each relative to the macros that will be enabled when it is
     processed (the macros ending at earlier tokens are enabled again by then) -/
-def meas (vc : Bool) (tbl : List Macro) : List String → List ITok → Nat
+def meas (vc : XCfg) (tbl : List Macro) : List String → List ITok → Nat
   | _, [] => 0
   | D, t :: r => wt vc (enabledOf tbl D) t.tok + meas vc tbl (D.filter (fun m => !t.ends.contains m)) r
 
@@ -228,7 +228,7 @@ theorem filter_ends_nil (D : List String) : D.filter (fun m => !([] : List Strin
   simp
 
 /-- plain tokens (no end lists) in front of the input -/
-theorem meas_append_plain (vc : Bool) (tbl : List Macro) (D : List String) (pre : List Tok) (rest : List ITok) :
+theorem meas_append_plain (vc : XCfg) (tbl : List Macro) (D : List String) (pre : List Tok) (rest : List ITok) :
     meas vc tbl D (pre.map (fun x => (⟨x, []⟩ : ITok)) ++ rest) =
       (pre.map (wt vc (enabledOf tbl D))).sum + meas vc tbl D rest := by
   induction pre with
@@ -251,9 +251,9 @@ theorem filter_after_expand (D : List String) (ends : List String) (n : String) 
 
 /-! ### one step decreases the measure -/
 
-def smeas (vc : Bool) (s : PP) : Nat := meas vc s.table s.disabled s.input
+def smeas (vc : XCfg) (s : PP) : Nat := meas vc s.table s.disabled s.input
 
-structure ObjInv (vc : Bool) (s : PP) : Prop where
+structure ObjInv (vc : XCfg) (s : PP) : Prop where
   obj : ObjTable s.table
   nd : NoDefined vc s.table
   ex : s.expanding = true
@@ -278,7 +278,7 @@ theorem expandable_mem {tbl : List Macro} {D : List String} {t : Tok} {m : Macro
   · simp [hid] at h
 
 /-- processing one token: the invariant is kept, the measure drops, at most one token is output -/
-theorem ptObj_step (vc : Bool) (t : ITok) (s : PP) (h : ObjInv vc s) :
+theorem ptObj_step (vc : XCfg) (t : ITok) (s : PP) (h : ObjInv vc s) :
     ObjInv vc (ptObj vc t s) ∧
     smeas vc (ptObj vc t s) + 1 ≤ smeas vc { s with input := t :: s.input } ∧
     smeas vc (ptObj vc t s) + (ptObj vc t s).output.length ≤
@@ -329,7 +329,7 @@ theorem ptObj_step (vc : Bool) (t : ITok) (s : PP) (h : ObjInv vc s) :
 
 /-! ### the loops stop -/
 
-theorem fill_terminates (vc : Bool) : ∀ (k : Nat) (s : PP), ObjInv vc s → smeas vc s ≤ k →
+theorem fill_terminates (vc : XCfg) : ∀ (k : Nat) (s : PP), ObjInv vc s → smeas vc s ≤ k →
     ∃ n s', fill vc n s = .ok s' ∧ ObjInv vc s' ∧
       smeas vc s' + s'.output.length ≤ smeas vc s + s.output.length ∧
       (s'.output ≠ [] ∨ s'.input = []) := by
@@ -376,7 +376,7 @@ theorem fill_terminates (vc : Bool) : ∀ (k : Nat) (s : PP), ObjInv vc s → sm
           · simp only [List.length_nil, Nat.add_zero] at htot ⊢
             omega
 
-theorem drain_terminates (vc : Bool) : ∀ (k : Nat) (s : PP) (acc : List Tok), ObjInv vc s →
+theorem drain_terminates (vc : XCfg) : ∀ (k : Nat) (s : PP) (acc : List Tok), ObjInv vc s →
     smeas vc s + s.output.length ≤ k → ∃ n r, drain vc n s acc = .ok r := by
   intro k
   induction k with
@@ -417,7 +417,7 @@ theorem drain_terminates (vc : Bool) : ∀ (k : Nat) (s : PP) (acc : List Tok), 
       exact this
 
 /-- every line terminates on a table of object-like macros, whatever the macros refer to -/
-theorem expandLine_obj_terminates (vc : Bool) (tbl : List Macro) (toks : List Tok) (hobj : ObjTable tbl)
+theorem expandLine_obj_terminates (vc : XCfg) (tbl : List Macro) (toks : List Tok) (hobj : ObjTable tbl)
     (hnd : NoDefined vc tbl) (ht : ∀ t ∈ toks, t.text ≠ "defined") :
     ∃ n r, expandLine vc n { table := tbl } toks = .ok r := by
   unfold expandLine
